@@ -68,6 +68,8 @@
 #include "opentelemetry/sdk/metrics/view/view_registry.h"
 #include "opentelemetry/sdk/resource/resource.h"
 #include "opentelemetry/sdk/trace/exporter.h"
+#include "opentelemetry/sdk/trace/random_id_generator.h"
+#include "opentelemetry/sdk/trace/samplers/always_on.h"
 #include "opentelemetry/sdk/trace/simple_processor.h"
 #include "opentelemetry/sdk/trace/span_data.h"
 #include "opentelemetry/sdk/trace/tracer.h"
@@ -383,7 +385,9 @@ VH_TARGET(predicate, 1,
   c.nontrivial = pat == "*" || pat.find('.') != std::string::npos ||
                  (pat != text && pat.size() + 2 >= text.size() && text.size() + 2 >= pat.size());
   VH_CHECK(c, want == kEither || got == (want == kYes),
-           (exact ? "exact" : "pattern") << " predicate '" << vh::show(pat) << "' Match('" << vh::show(text)
+           (exact ? "exact" : "pattern") << " predicate '" << vh::show(pat) << "' (handed over as a view "
+                                         << (plain_pattern ? "that is NUL terminated" : "followed by '#~'")
+                                         << ") Match('" << vh::show(text)
                                          << "' handed over as a view followed by '" << post << "') returned "
                                          << got << ", the selector describes " << (want == kYes ? "a match" : "no match"));
 }
@@ -871,7 +875,7 @@ struct Handle
 };
 }  // namespace
 
-VH_TARGET(views, 2,
+VH_TARGET(views, 3,
           "non-trivial when at least one view matches at least one instrument AND at least one (view, "
           "instrument) pair does not match (both directions of 'exactly' are exercised); distinct = "
           "distinct (meters, instruments, views) text")
@@ -884,6 +888,9 @@ VH_TARGET(views, 2,
   static const char *const mvers[]  = {"", "1.0", "2.0"};
   static const char *const mschem[] = {"", "https://s/1", "https://s/2"};
   std::vector<MeterSpec> meters;
+  // all counts first: a short stream still yields views (made of zero choices: they match)
+  unsigned nv = static_cast<unsigned>(rd.weighted({2, 4, 4, 3, 2}));
+  unsigned ni = 1 + static_cast<unsigned>(rd.weighted({3, 4, 3, 2}));
   unsigned nm = 1 + static_cast<unsigned>(rd.weighted({5, 3, 1}));
   for (unsigned i = 0; i < nm; ++i)
   {
@@ -899,7 +906,6 @@ VH_TARGET(views, 2,
   static const char *const units[] = {"", "ms", "By"};
   static const char *const descs[] = {"", "instrument description"};
   std::vector<InstSpec> insts;
-  unsigned ni = 1 + static_cast<unsigned>(rd.weighted({3, 4, 3, 2}));
   for (unsigned i = 0; i < ni && (i == 0 || !rd.exhausted()); ++i)
   {
     InstSpec in;
@@ -918,13 +924,12 @@ VH_TARGET(views, 2,
   }
   // ---- views
   std::vector<ViewSpec> views;
-  unsigned nv = static_cast<unsigned>(rd.weighted({2, 5, 4, 2, 1}));
   for (unsigned i = 0; i < nv; ++i)
   {
     ViewSpec v;
     const InstSpec &near = insts[rd.below(static_cast<uint32_t>(insts.size()))];
     const MeterSpec &mnear = meters[rd.below(static_cast<uint32_t>(meters.size()))];
-    v.sel_type = rd.chance(25) ? rd.below(kTypes + 1) : near.type;
+    v.sel_type = rd.chance(15) ? rd.below(kTypes + 1) : near.type;
     switch (rd.weighted({35, 15, 35, 15}))
     {
       case 0:
@@ -1227,25 +1232,12 @@ VH_TARGET(views, 2,
           exp.push_back(expect_of(in, i, v));
       for (auto *s : by_inst[i])
         s->used = false;
-      // (drop-only streams claimed by an earlier instrument stay claimed)
-      std::vector<Stream *> claimed_drops;
       bool ok = true;
       std::string first_why;
       for (auto &e : exp)
       {
         if (e.kind == kDropK)
-        {
-          // either nothing at all, or a stream with only drop points and the view's identity
-          for (auto *s : drops)
-            if (!s->used && s->scope == mid && s->name == e.name && s->desc == e.desc && s->unit == in.unit &&
-                s->type == kType[in.type])
-            {
-              s->used = true;
-              claimed_drops.push_back(s);
-              break;
-            }
-          continue;
-        }
+          continue;  // nothing is required of a Drop view (drop-only streams are judged below)
         bool found = false;
         std::string w;
         for (auto *s : by_inst[i])
@@ -1278,13 +1270,8 @@ VH_TARGET(views, 2,
         }
       if (ok)
         explained = true;
-      else
-      {
-        for (auto *s : claimed_drops)
-          s->used = false;
-        if (why.empty())
-          why = first_why;
-      }
+      else if (why.empty())
+        why = first_why;
     }
     if (!explained)
     {
@@ -1299,8 +1286,606 @@ VH_TARGET(views, 2,
              (vs.empty() ? " none" : vs));
     }
   }
+  // Drop: either nothing at all or a stream that carries only drop points and the identity the
+  // (possibly) matching Drop view gives it
   for (auto *s : drops)
-    VH_CHECK(c, s->used, "a drop-only stream reached the reader that no Drop view describes: " << show_stream(*s));
+  {
+    bool justified = false;
+    for (size_t i = 0; i < insts.size() && !justified; ++i)
+      for (size_t v = 0; v < views.size() && !justified; ++v)
+      {
+        if (rel[i][v] == kNo || kind_of(views[v].agg, insts[i].type) != kDropK)
+          continue;
+        Expect e  = expect_of(insts[i], i, &views[v]);
+        justified = s->scope == meters[insts[i].meter].id && s->name == e.name && s->desc == e.desc &&
+                    s->unit == insts[i].unit && s->type == kType[insts[i].type];
+      }
+    VH_CHECK(c, justified, "a drop-only stream reached the reader that no matching Drop view describes: "
+                               << show_stream(*s));
+  }
   for (auto &h : handles)
     h->release();
+}
+
+// ================================================================================================
+// scope configurator rules
+namespace
+{
+struct Rule
+{
+  unsigned kind = 0;
+  std::string arg;
+  bool enable = false;
+};
+const char *const kRuleName[] = {"AddConditionNameEquals", "pred(name==)",  "pred(version==)", "pred(schema==)",
+                                 "pred(name has prefix)",  "pred(true)",    "pred(false)",     "pred(name length even)"};
+constexpr unsigned kRuleKinds = 8;
+
+bool rule_matches(const Rule &r, const ScopeId &s)
+{
+  switch (r.kind)
+  {
+    case 0:
+    case 1:
+      return s.name == r.arg;
+    case 2:
+      return s.version == r.arg;
+    case 3:
+      return s.schema == r.arg;
+    case 4:
+      return s.name.compare(0, r.arg.size(), r.arg) == 0;
+    case 5:
+      return true;
+    case 6:
+      return false;
+    default:
+      return s.name.size() % 2 == 0;
+  }
+}
+// first matching rule decides, else the default
+bool model_enabled(const std::vector<Rule> &rules, bool default_enabled, const ScopeId &s, int *decider = nullptr)
+{
+  for (size_t i = 0; i < rules.size(); ++i)
+    if (rule_matches(rules[i], s))
+    {
+      if (decider)
+        *decider = static_cast<int>(i);
+      return rules[i].enable;
+    }
+  if (decider)
+    *decider = -1;
+  return default_enabled;
+}
+
+template <class Config>
+std::unique_ptr<scope_::ScopeConfigurator<Config>> build_configurator(const std::vector<Rule> &rules,
+                                                                      unsigned default_cfg,
+                                                                      std::vector<ScopeId> *asked)
+{
+  // the builder is a temporary: the configurator must own everything it needs
+  typename scope_::ScopeConfigurator<Config>::Builder b(default_cfg == 0   ? Config::Enabled()
+                                                        : default_cfg == 1 ? Config::Disabled()
+                                                                           : Config::Default());
+  for (auto &r : rules)
+  {
+    Config cfg = r.enable ? Config::Enabled() : Config::Disabled();
+    if (r.kind == 0)
+    {
+      Held h(r.arg);
+      b.AddConditionNameEquals(h.view(), cfg);
+      h.scribble();
+    }
+    else
+    {
+      Rule copy = r;
+      b.AddCondition(
+          [copy, asked](const InstrumentationScope &s) {
+            asked->push_back(id_of(s));
+            return rule_matches(copy, id_of(s));
+          },
+          cfg);
+    }
+  }
+  return std::make_unique<scope_::ScopeConfigurator<Config>>(b.Build());
+}
+
+std::string show_rules(const std::vector<Rule> &rules, unsigned default_cfg)
+{
+  std::string s;
+  for (size_t i = 0; i < rules.size(); ++i)
+    s += "rule#" + std::to_string(i) + " " + kRuleName[rules[i].kind] + " '" + rules[i].arg + "' -> " +
+         (rules[i].enable ? "enabled" : "disabled") + "\n";
+  return s + "default -> " + (default_cfg == 1 ? "disabled" : default_cfg == 0 ? "enabled" : "Default()") + "\n";
+}
+
+const char *const kScopeNames[]    = {"a", "ab", "lib.a", "lib.b", "lib.a2", ""};
+const char *const kScopeVersions[] = {"", "1.0", "2.0"};
+const char *const kScopeSchemas[]  = {"", "https://s/1"};
+
+void gray_cb(apim::ObserverResult result, void *)
+{
+  nostd::get<nostd::shared_ptr<apim::ObserverResultT<int64_t>>>(result)->Observe(7);
+}
+}  // namespace
+
+VH_TARGET(scope_rules, 2,
+          "non-trivial when the rule list disables at least one requested scope and leaves at least one "
+          "enabled, or when two rules with different verdicts match the same scope (order matters); "
+          "distinct = distinct (rules, default, scopes, emission counts) text")
+{
+  quiet_logs();
+  vh::Reader &rd = c.rd;
+  std::vector<Rule> rules;
+  unsigned nr = static_cast<unsigned>(rd.weighted({1, 3, 4, 3, 2, 1}));
+  for (unsigned i = 0; i < nr; ++i)
+  {
+    Rule r;
+    r.kind = static_cast<unsigned>(rd.weighted({6, 3, 2, 2, 3, 1, 1, 2}));
+    switch (r.kind)
+    {
+      case 0:
+      case 1:
+        r.arg = kScopeNames[rd.below(6)];
+        break;
+      case 2:
+        r.arg = kScopeVersions[rd.below(3)];
+        break;
+      case 3:
+        r.arg = kScopeSchemas[rd.below(2)];
+        break;
+      case 4:
+        r.arg = rd.coin() ? "lib" : (rd.coin() ? "a" : "lib.a");
+        break;
+      default:
+        break;
+    }
+    r.enable = rd.chance(40);
+    rules.push_back(r);
+  }
+  unsigned default_cfg = static_cast<unsigned>(rd.weighted({5, 4, 1}));
+  bool default_enabled = default_cfg != 1;
+  std::vector<ScopeId> scopes;
+  std::vector<unsigned> counts;
+  unsigned ns = 1 + static_cast<unsigned>(rd.weighted({2, 4, 3, 2}));
+  for (unsigned i = 0; i < ns; ++i)
+  {
+    ScopeId s{kScopeNames[rd.below(6)], kScopeVersions[rd.weighted({3, 2, 1})], kScopeSchemas[rd.weighted({3, 1})]};
+    if (std::find(scopes.begin(), scopes.end(), s) != scopes.end())
+      continue;
+    scopes.push_back(s);
+    counts.push_back(1 + rd.below(3));
+  }
+  c.note(show_rules(rules, default_cfg));
+  size_t n_on = 0, n_off = 0;
+  bool order_matters = false;
+  for (size_t j = 0; j < scopes.size(); ++j)
+  {
+    int decider = -1;
+    bool en     = model_enabled(rules, default_enabled, scopes[j], &decider);
+    c.note("scope " + show_scope(scopes[j]) + " x" + std::to_string(counts[j]) + " -> " +
+           (en ? "enabled" : "disabled") + " by " + (decider < 0 ? "default" : "rule#" + std::to_string(decider)) + "\n");
+    (en ? n_on : n_off)++;
+    c.tag(decider < 0 ? "decided-by-default" : decider == 0 ? "decided-by-first-rule" : "decided-by-later-rule");
+    if (decider >= 0)
+    {
+      c.tag(std::string("decider-") + kRuleName[rules[static_cast<size_t>(decider)].kind]);
+      for (size_t k = static_cast<size_t>(decider) + 1; k < rules.size(); ++k)
+        if (rule_matches(rules[k], scopes[j]) && rules[k].enable != en)
+          order_matters = true;
+      if (en != default_enabled)
+        c.tag("rule-overrides-default");
+    }
+  }
+  if (order_matters)
+    c.tag("order-matters");
+  c.tag("rules-" + std::to_string(rules.size()));
+  c.nontrivial = (n_on > 0 && n_off > 0) || order_matters;
+  std::set<ScopeId> requested(scopes.begin(), scopes.end());
+
+  // ---- tracers
+  {
+    std::vector<SpanSeen> spans;
+    std::vector<ScopeId> asked;
+    {
+      std::unique_ptr<sdkt::SpanProcessor> proc(
+          new sdkt::SimpleSpanProcessor(std::unique_ptr<sdkt::SpanExporter>(new HSpanExporter(&spans))));
+      sdkt::TracerProvider tp(std::move(proc), the_resource(), std::unique_ptr<sdkt::Sampler>(new sdkt::AlwaysOnSampler),
+                              std::unique_ptr<sdkt::IdGenerator>(new sdkt::RandomIdGenerator),
+                              build_configurator<sdkt::TracerConfig>(rules, default_cfg, &asked));
+      for (size_t j = 0; j < scopes.size(); ++j)
+      {
+        Held hn(scopes[j].name), hv(scopes[j].version), hs(scopes[j].schema);
+        auto tracer = tp.GetTracer(hn.view(), hv.view(), hs.view());
+        hn.scribble();
+        hv.scribble();
+        hs.scribble();
+        for (unsigned k = 0; k < counts[j]; ++k)
+        {
+          auto span = tracer->StartSpan("span-" + std::to_string(j));
+          span->SetAttribute("k", static_cast<int64_t>(k));
+          span->End();
+        }
+      }
+      tp.ForceFlush();
+    }
+    for (auto &a : asked)
+      VH_CHECK(c, requested.count(a), "a tracer rule was asked about the scope " << show_scope(a)
+                                                                                 << " that nobody requested");
+    size_t expected_total = 0;
+    for (size_t j = 0; j < scopes.size(); ++j)
+    {
+      bool en  = model_enabled(rules, default_enabled, scopes[j]);
+      size_t n = 0;
+      for (auto &s : spans)
+        n += s.scope == scopes[j] && s.name == "span-" + std::to_string(j);
+      size_t want = en ? counts[j] : 0;
+      expected_total += want;
+      VH_CHECK(c, n == want, "tracer " << show_scope(scopes[j]) << " is " << (en ? "enabled" : "disabled")
+                                       << " by the rules and ended " << counts[j] << " span(s); the exporter saw " << n
+                                       << "\n" << show_rules(rules, default_cfg));
+    }
+    VH_CHECK(c, spans.size() == expected_total, "the span exporter saw " << spans.size() << " spans, expected "
+                                                                        << expected_total);
+  }
+
+  // ---- meters
+  {
+    std::vector<ScopeId> asked;
+    std::shared_ptr<HReader> reader(new HReader(sdkm::AggregationTemporality::kCumulative));
+    sdkm::MeterProvider mp(std::unique_ptr<sdkm::ViewRegistry>(new sdkm::ViewRegistry), the_resource(),
+                           build_configurator<sdkm::MeterConfig>(rules, default_cfg, &asked));
+    mp.AddMetricReader(reader);
+    std::vector<nostd::unique_ptr<apim::Counter<uint64_t>>> counters;
+    std::vector<nostd::shared_ptr<apim::ObservableInstrument>> gauges;
+    for (size_t j = 0; j < scopes.size(); ++j)
+    {
+      Held hn(scopes[j].name), hv(scopes[j].version), hs(scopes[j].schema);
+      auto meter = mp.GetMeter(hn.view(), hv.view(), hs.view());
+      hn.scribble();
+      hv.scribble();
+      hs.scribble();
+      counters.push_back(meter->CreateUInt64Counter("c19.count", "", ""));
+      gauges.push_back(meter->CreateInt64ObservableGauge("c19.gauge", "", ""));
+      VH_CHECK(c, counters.back() && gauges.back(), "a meter returned a null instrument");
+      gauges.back()->AddCallback(gray_cb, nullptr);
+      counters.back()->Add(counts[j]);
+    }
+    std::vector<Stream> seen;
+    collect(*reader, &seen, c);
+    for (auto &a : asked)
+      VH_CHECK(c, requested.count(a), "a meter rule was asked about the scope " << show_scope(a)
+                                                                                << " that nobody requested");
+    size_t expected_total = 0;
+    for (size_t j = 0; j < scopes.size(); ++j)
+    {
+      bool en = model_enabled(rules, default_enabled, scopes[j]);
+      size_t n_count = 0, n_gauge = 0, n_other = 0;
+      for (auto &s : seen)
+      {
+        if (!(s.scope == scopes[j]))
+          continue;
+        if (s.name == "c19.count" && s.series.size() == 1 && s.series.begin()->second.kind == kSumK &&
+            s.series.begin()->second.value == counts[j])
+          ++n_count;
+        else if (s.name == "c19.gauge" && s.series.size() == 1 && s.series.begin()->second.kind == kLastK &&
+                 s.series.begin()->second.value == 7)
+          ++n_gauge;
+        else
+          ++n_other;
+      }
+      size_t want = en ? 1 : 0;
+      expected_total += 2 * want;
+      VH_CHECK(c, n_count == want && n_gauge == want && n_other == 0,
+               "meter " << show_scope(scopes[j]) << " is " << (en ? "enabled" : "disabled")
+                        << " by the rules; the reader saw " << n_count << " counter stream(s), " << n_gauge
+                        << " gauge stream(s) and " << n_other << " other stream(s) of that scope\n"
+                        << show_rules(rules, default_cfg));
+    }
+    VH_CHECK(c, seen.size() == expected_total, "the reader saw " << seen.size() << " streams, expected " << expected_total);
+    for (auto &g : gauges)
+      g->RemoveCallback(gray_cb, nullptr);
+  }
+
+  // ---- loggers (an empty library name means "use the logger name" as the scope name)
+  {
+    std::vector<SpanSeen> logs;
+    std::vector<ScopeId> asked;
+    const std::string logger_name = "lib.b";  // so that the fallback can hit a rule, too
+    std::vector<ScopeId> eff;
+    for (auto &s : scopes)
+      eff.push_back(ScopeId{s.name.empty() ? logger_name : s.name, s.version, s.schema});
+    {
+      std::unique_ptr<sdkl::LogRecordProcessor> proc(
+          new sdkl::SimpleLogRecordProcessor(std::unique_ptr<sdkl::LogRecordExporter>(new HLogExporter(&logs))));
+      sdkl::LoggerProvider lp(std::move(proc), the_resource(),
+                              build_configurator<sdkl::LoggerConfig>(rules, default_cfg, &asked));
+      for (size_t j = 0; j < scopes.size(); ++j)
+      {
+        Held hl(logger_name), hn(scopes[j].name), hv(scopes[j].version), hs(scopes[j].schema);
+        auto logger = lp.GetLogger(hl.view(), hn.view(), hv.view(), hs.view());
+        hl.scribble();
+        hn.scribble();
+        hv.scribble();
+        hs.scribble();
+        for (unsigned k = 0; k < counts[j]; ++k)
+        {
+          std::string body = "log-" + std::to_string(j);
+          if (k % 2 == 0)
+            logger->Log(opentelemetry::logs::Severity::kInfo, nostd::string_view(body));
+          else
+          {
+            auto rec = logger->CreateLogRecord();
+            if (rec)
+              rec->SetBody(nostd::string_view(body));
+            logger->EmitLogRecord(std::move(rec));
+          }
+        }
+      }
+      lp.ForceFlush();
+    }
+    std::set<ScopeId> req_eff(eff.begin(), eff.end());
+    for (auto &a : asked)
+      VH_CHECK(c, req_eff.count(a), "a logger rule was asked about the scope " << show_scope(a)
+                                                                               << " that nobody requested");
+    size_t expected_total = 0;
+    for (size_t j = 0; j < scopes.size(); ++j)
+    {
+      // two requested scopes can collapse onto one effective scope ("" and the logger name)
+      bool en  = model_enabled(rules, default_enabled, eff[j]);
+      size_t n = 0;
+      for (auto &s : logs)
+        n += s.scope == eff[j] && s.name == "log-" + std::to_string(j);
+      size_t want = en ? counts[j] : 0;
+      expected_total += want;
+      VH_CHECK(c, n == want, "logger " << show_scope(eff[j]) << " is " << (en ? "enabled" : "disabled")
+                                       << " by the rules and emitted " << counts[j] << " record(s); the exporter saw "
+                                       << n << "\n" << show_rules(rules, default_cfg));
+    }
+    VH_CHECK(c, logs.size() == expected_total, "the log exporter saw " << logs.size() << " records, expected "
+                                                                      << expected_total);
+  }
+}
+
+// ================================================================================================
+// identity
+namespace
+{
+struct Req
+{
+  std::string logger_name;  // loggers only
+  ScopeId id;
+  unsigned attrs = 0;  // loggers only: index into kAttrSets
+};
+// attribute sets for logger scopes; sets 3 and 4 are equal as sets (different order)
+struct AttrKV
+{
+  const char *key;
+  bool is_string;
+  int64_t i;
+  const char *s;
+};
+const std::vector<std::vector<AttrKV>> kAttrSets = {
+    {},
+    {{"k", false, 1, ""}},
+    {{"k", false, 2, ""}},
+    {{"k", false, 1, ""}, {"j", true, 0, "s"}},
+    {{"j", true, 0, "s"}, {"k", false, 1, ""}},
+    {{"k", true, 0, "1"}},
+    {{"kk", false, 1, ""}},
+};
+std::string attr_key(unsigned idx)
+{
+  std::vector<std::string> parts;
+  for (auto &kv : kAttrSets[idx])
+    parts.push_back(std::string(kv.key) + (kv.is_string ? "=s:" + std::string(kv.s) : "=i:" + std::to_string(kv.i)));
+  std::sort(parts.begin(), parts.end());
+  std::string t;
+  for (auto &p : parts)
+    t += p + ";";
+  return t;
+}
+std::string vary(vh::Reader &rd, const std::string &s)
+{
+  switch (rd.below(5))
+  {
+    case 0:
+      return s + "x";
+    case 1:
+      return s.empty() ? "x" : s.substr(0, s.size() - 1);
+    case 2:
+    {
+      std::string t = s;
+      for (char &ch : t)
+        if (ch >= 'a' && ch <= 'z')
+        {
+          ch = static_cast<char>(ch - 'a' + 'A');
+          break;
+        }
+      return t == s ? s + "A" : t;
+    }
+    case 3:
+      return s + " ";
+    default:
+      return s + std::string(1, '\0') + "z";
+  }
+}
+}  // namespace
+
+VH_TARGET(identity, 2,
+          "non-trivial when the request list contains at least one exact repetition AND at least one pair "
+          "that differs in exactly one component; distinct = distinct (signal, rules, request list) text")
+{
+  quiet_logs();
+  vh::Reader &rd  = c.rd;
+  unsigned signal = rd.below(3);
+  static const char *const signame[] = {"tracer", "meter", "logger"};
+  // some scopes are disabled: a disabled tracer / meter / logger has an identity like any other
+  std::vector<Rule> rules;
+  unsigned nr = static_cast<unsigned>(rd.weighted({3, 3, 2}));
+  for (unsigned i = 0; i < nr; ++i)
+  {
+    Rule r;
+    r.kind   = 0;
+    r.arg    = kScopeNames[rd.below(5)];
+    r.enable = rd.chance(30);
+    rules.push_back(r);
+  }
+  unsigned default_cfg = static_cast<unsigned>(rd.weighted({6, 3, 1}));
+  std::vector<Req> reqs;
+  unsigned n = 2 + rd.below(6);
+  bool has_repeat = false, has_near = false;
+  for (unsigned i = 0; i < n; ++i)
+  {
+    Req r;
+    unsigned how = reqs.empty() ? 0 : static_cast<unsigned>(rd.weighted({3, 4, 4}));
+    if (how == 0)
+    {
+      r.id          = ScopeId{kScopeNames[rd.below(5)], kScopeVersions[rd.weighted({3, 2, 1})], kScopeSchemas[rd.weighted({3, 1})]};
+      r.logger_name = rd.chance(25) ? "lg2" : "lg";
+      r.attrs       = rd.chance(30) ? rd.below(static_cast<uint32_t>(kAttrSets.size())) : 0;
+    }
+    else
+    {
+      r = reqs[rd.below(static_cast<uint32_t>(reqs.size()))];
+      if (how == 1)
+        has_repeat = true;
+      else
+      {
+        has_near = true;
+        switch (rd.below(signal == 2 ? 5 : 3))
+        {
+          case 0:
+            r.id.name = vary(rd, r.id.name);
+            break;
+          case 1:
+            r.id.version = rd.coin() ? vary(rd, r.id.version) : kScopeVersions[rd.below(3)];
+            break;
+          case 2:
+            r.id.schema = rd.coin() ? vary(rd, r.id.schema) : kScopeSchemas[rd.below(2)];
+            break;
+          case 3:
+            r.logger_name = vary(rd, r.logger_name);
+            break;
+          default:
+            r.attrs = rd.below(static_cast<uint32_t>(kAttrSets.size()));
+            break;
+        }
+      }
+    }
+    reqs.push_back(r);
+  }
+  c.note(std::string(signame[signal]) + "\n" + show_rules(rules, default_cfg));
+  c.tag(std::string("signal-") + signame[signal]);
+  c.nontrivial = has_repeat && has_near;
+
+  std::vector<ScopeId> asked;
+  std::unique_ptr<sdkt::TracerProvider> tp;
+  std::unique_ptr<sdkm::MeterProvider> mp;
+  std::unique_ptr<sdkl::LoggerProvider> lp;
+  std::vector<SpanSeen> sink;
+  if (signal == 0)
+    tp.reset(new sdkt::TracerProvider(
+        std::unique_ptr<sdkt::SpanProcessor>(
+            new sdkt::SimpleSpanProcessor(std::unique_ptr<sdkt::SpanExporter>(new HSpanExporter(&sink)))),
+        the_resource(), std::unique_ptr<sdkt::Sampler>(new sdkt::AlwaysOnSampler),
+        std::unique_ptr<sdkt::IdGenerator>(new sdkt::RandomIdGenerator),
+        build_configurator<sdkt::TracerConfig>(rules, default_cfg, &asked)));
+  else if (signal == 1)
+    mp.reset(new sdkm::MeterProvider(std::unique_ptr<sdkm::ViewRegistry>(new sdkm::ViewRegistry), the_resource(),
+                                     build_configurator<sdkm::MeterConfig>(rules, default_cfg, &asked)));
+  else
+    lp.reset(new sdkl::LoggerProvider(
+        std::unique_ptr<sdkl::LogRecordProcessor>(
+            new sdkl::SimpleLogRecordProcessor(std::unique_ptr<sdkl::LogRecordExporter>(new HLogExporter(&sink)))),
+        the_resource(), build_configurator<sdkl::LoggerConfig>(rules, default_cfg, &asked)));
+
+  std::vector<const void *> ptrs;
+  std::vector<std::string> keys;
+  std::vector<nostd::shared_ptr<opentelemetry::trace::Tracer>> keep_t;
+  std::vector<nostd::shared_ptr<apim::Meter>> keep_m;
+  std::vector<nostd::shared_ptr<opentelemetry::logs::Logger>> keep_l;
+  for (size_t i = 0; i < reqs.size(); ++i)
+  {
+    const Req &r = reqs[i];
+    ScopeId eff  = r.id;
+    std::string key;
+    Held hn(r.id.name), hv(r.id.version), hs(r.id.schema), hl(r.logger_name);
+    const InstrumentationScope *got_scope = nullptr;
+    if (signal == 0)
+    {
+      keep_t.push_back(tp->GetTracer(hn.view(), hv.view(), hs.view()));
+      VH_CHECK(c, keep_t.back(), "GetTracer returned null");
+      ptrs.push_back(keep_t.back().get());
+      got_scope = &static_cast<sdkt::Tracer *>(keep_t.back().get())->GetInstrumentationScope();
+    }
+    else if (signal == 1)
+    {
+      keep_m.push_back(mp->GetMeter(hn.view(), hv.view(), hs.view()));
+      VH_CHECK(c, keep_m.back(), "GetMeter returned null");
+      ptrs.push_back(keep_m.back().get());
+      got_scope = static_cast<sdkm::Meter *>(keep_m.back().get())->GetInstrumentationScope();
+    }
+    else
+    {
+      if (eff.name.empty())
+        eff.name = r.logger_name;
+      // values live in short-lived storage as well
+      std::vector<std::string> sval;
+      for (auto &kv : kAttrSets[r.attrs])
+        sval.push_back(std::string("\x02") + kv.s + "#");
+      std::vector<std::pair<nostd::string_view, common::AttributeValue>> kvs;
+      for (size_t a = 0; a < kAttrSets[r.attrs].size(); ++a)
+      {
+        auto &kv = kAttrSets[r.attrs][a];
+        if (kv.is_string)
+          kvs.emplace_back(kv.key, common::AttributeValue(nostd::string_view(sval[a].data() + 1, std::strlen(kv.s))));
+        else
+          kvs.emplace_back(kv.key, common::AttributeValue(kv.i));
+      }
+      common::KeyValueIterableView<std::vector<std::pair<nostd::string_view, common::AttributeValue>>> view(kvs);
+      keep_l.push_back(lp->GetLogger(hl.view(), hn.view(), hv.view(), hs.view(), view));
+      for (auto &sv : sval)
+        std::fill(sv.begin(), sv.end(), '\xDD');
+      VH_CHECK(c, keep_l.back(), "GetLogger returned null");
+      ptrs.push_back(keep_l.back().get());
+      got_scope = &static_cast<sdkl::Logger *>(keep_l.back().get())->GetInstrumentationScope();
+      key       = "logger=" + r.logger_name + "|attrs=" + attr_key(r.attrs) + "|";
+    }
+    hn.scribble();
+    hv.scribble();
+    hs.scribble();
+    hl.scribble();
+    key += std::to_string(eff.name.size()) + ":" + eff.name + "|" + std::to_string(eff.version.size()) + ":" +
+           eff.version + "|" + eff.schema;
+    keys.push_back(key);
+    c.note("#" + std::to_string(i) + " Get(" + (signal == 2 ? "logger '" + vh::show(r.logger_name) + "' attrs{" + attr_key(r.attrs) + "} " : std::string()) +
+           show_scope(r.id) + ")\n");
+    VH_CHECK(c, id_of(*got_scope) == eff, signame[signal] << " requested as " << show_scope(eff) << " reports the scope "
+                                                          << show_scope(id_of(*got_scope)));
+    if (signal == 2)
+      VH_CHECK(c, got_scope->GetAttributes().size() == kAttrSets[r.attrs].size(),
+               "logger scope requested with " << kAttrSets[r.attrs].size() << " attribute(s) reports "
+                                              << got_scope->GetAttributes().size());
+  }
+  size_t same_pairs = 0, diff_pairs = 0;
+  for (size_t i = 0; i < reqs.size(); ++i)
+    for (size_t j = i + 1; j < reqs.size(); ++j)
+    {
+      bool same_id = keys[i] == keys[j];
+      (same_id ? same_pairs : diff_pairs)++;
+      bool enabled = model_enabled(rules, default_cfg != 1, ScopeId{signal == 2 && reqs[i].id.name.empty() ? reqs[i].logger_name : reqs[i].id.name, reqs[i].id.version, reqs[i].id.schema});
+      if (same_id)
+        c.tag(enabled ? "repeat-of-enabled-scope" : "repeat-of-disabled-scope");
+      VH_CHECK(c, !same_id || ptrs[i] == ptrs[j],
+               "request #" << i << " and request #" << j << " name the same " << signame[signal] << " (" << vh::show(keys[i])
+                           << ", " << (enabled ? "enabled" : "disabled by the configurator")
+                           << ") but two different objects were returned");
+      VH_CHECK(c, same_id || ptrs[i] != ptrs[j],
+               "request #" << i << " (" << vh::show(keys[i]) << ") and request #" << j << " (" << vh::show(keys[j])
+                           << ") differ but the same " << signame[signal] << " object was returned");
+    }
+  if (same_pairs)
+    c.tag("has-same-pair");
+  if (diff_pairs)
+    c.tag("has-different-pair");
 }
